@@ -213,6 +213,9 @@ pub fn float_ops(op: &str, a: &[&str]) -> Option<String> {
                 |v| show_pts(&v.iter().map(|p| (p.longitude(), p.latitude())).collect::<Vec<_>>()),
             )
         }
+        ("cell_to_boundary_default", 1) => show(a5::cell_to_boundary(p_u64(a[0])?, None), |v| {
+            show_pts(&v.iter().map(|p| (p.longitude(), p.latitude())).collect::<Vec<_>>())
+        }),
         ("contains", 3) => {
             let id = p_u64(a[0])?;
             let ll = LonLat::new(p_f64(a[1])?, p_f64(a[2])?);
